@@ -311,7 +311,7 @@ fn check_packet(rep_: &Rep, app: &[L], bytes: &[u8], class: u8, method: u16, ear
 pub fn run(ctx: &RunCtx) -> i32 {
     let thorough = ctx.thorough();
     let alpha = alphabet();
-    let max_len = if thorough { 5 } else { 4 };
+    let max_len = if crate::util::second_pass() { 2 } else if thorough { 5 } else { 4 };
     // every sequence of length <= max_len over the alphabet
     let mut lists: Vec<Vec<L>> = vec![vec![]];
     let mut frontier: Vec<Vec<L>> = vec![vec![]];
